@@ -1,4 +1,7 @@
 import Avfs.Lemmas.Idm
+import Avfs.Conc.Theorems
+import Avfs.Conc.Facts
+import Avfs.Generated.Locks
 set_option linter.unusedSimpArgs false
 /-
   C15 — the in-memory identity manager stays consistent.
@@ -112,3 +115,35 @@ example : Reachable r r (run (init r r) [.addGroup a]).1 := ⟨_, rfl⟩
 end NonVacuity
 
 end Avfs.Idm
+
+/-! ### "any concurrent mix": each call is one critical section
+  The theorems above are about sequential histories of `step`. They carry over to concurrent callers because every
+  MemIdm method but AddUser touches the maps and counters inside ONE critical section — exclusive on its mutex for the
+  mutators, shared for the lookups — so that (`C15_atomic_sections_serial`) a concurrent execution is the sequential
+  execution of the sections in lock order. The section shape is re-decided on the lock facts regenerated from
+  idm/memidm by harness/cmd/lockx on every run; the linearizability search `lin -fs memidm` looks for a failing
+  concurrent program when it no longer holds. -/
+namespace Avfs.Conc
+open Avfs.Generated
+
+theorem C15_atomic_sections_serial {T L X : Type} [DecidableEq T] [DecidableEq L] (L0 : L) (tr : List (Ev T L X))
+    (hacc : ∀ (n : Nat) (h : n < tr.length) (t : T), (tr[n]).isAccessBy t → holdsAfter (tr.take n) t .w L0)
+    (i k j : Nat) (hik : i < k) (hkj : k < j) (hj : j < tr.length) (t : T)
+    (hai : tr[i].isAccessBy t) (haj : tr[j].isAccessBy t)
+    (hnorel : ∀ (n : Nat) (h : n < tr.length), i < n → n < j → tr[n] ≠ .rel t .w L0)
+    (t' : T) (htt : t' ≠ t) : ¬ tr[k].isAccessBy t' :=
+  atomic_sections_serial L0 tr hacc i k j hik hkj hj t hai haj hnorel t' htt
+
+theorem C15_single_section :
+    ((["MemIdm.AddGroup", "MemIdm.DelGroup"].all fun f => singleSection lockFns lockFacts "memidm" f "idm#grpMu" true) &&
+     (["MemIdm.DelUser"].all fun f => singleSection lockFns lockFacts "memidm" f "idm#usrMu" true) &&
+     (["MemIdm.LookupGroup", "MemIdm.LookupGroupId"].all fun f => singleSection lockFns lockFacts "memidm" f "idm#grpMu" false) &&
+     (["MemIdm.LookupUser", "MemIdm.LookupUserId"].all fun f => singleSection lockFns lockFacts "memidm" f "idm#usrMu" false)) = true := by
+  decide +kernel
+
+/-- AddUser is NOT one section (LookupGroup, then the user section): recorded finding — kernel-checked witness -/
+theorem C15_addUser_two_sections :
+    (singleSection lockFns lockFacts "memidm" "MemIdm.AddUser" "idm#usrMu" true ||
+     singleSection lockFns lockFacts "memidm" "MemIdm.AddUser" "idm#grpMu" false) = false := by decide +kernel
+
+end Avfs.Conc
